@@ -218,6 +218,7 @@ func summarize(eng *Engine, vcs []*VC, missing []string, prop, tier string, verb
 			}
 		}
 		if verbose {
+			fmt.Printf("  returns[%s]: %s\n", vc.con.Key, strings.Join(vc.retLines, " "))
 			for a := range vc.assumes {
 				fmt.Printf("  assume[%s]: %s\n", vc.con.Key, a)
 			}
@@ -256,6 +257,15 @@ func report(eng *Engine, r *Report, prop, out, replays, tier string, kf *KnownFi
 				}
 			} else {
 				f.Replay = eng.replayFunction(f.vc, f.o, tmpdir)
+			}
+		}
+		if f.vc != nil && !noReplay && (f.Replay == nil || !f.Replay.Confirmed) && f.Answer != "unsat" {
+			if tmpl := scenarioFor(eng, f.Obligation); tmpl != "" {
+				if sr := eng.replayTemplate(tmpl, map[T]string{}, tmpdir, f.Obligation); sr.Attempted {
+					if sr.Confirmed || f.Replay == nil {
+						f.Replay = sr
+					}
+				}
 			}
 		}
 		if known != nil {
@@ -385,4 +395,29 @@ func cmdReplay(argv []string) int {
 		return 1
 	}
 	return 0
+}
+
+type scenarioFile struct {
+	Scenarios []struct {
+		Obligation string `json:"obligation"`
+		Template   string `json:"template"`
+	} `json:"scenarios"`
+}
+
+// scenarioFor: the scenario replay registered for an obligation name, if any.
+func scenarioFor(eng *Engine, obl string) string {
+	b, err := os.ReadFile(filepath.Join(filepath.Dir(eng.specDir), "replay", "scenarios.json"))
+	if err != nil {
+		return ""
+	}
+	var sf scenarioFile
+	if json.Unmarshal(b, &sf) != nil {
+		return ""
+	}
+	for _, sc := range sf.Scenarios {
+		if re, err := regexp.Compile(sc.Obligation); err == nil && re.MatchString(obl) {
+			return sc.Template
+		}
+	}
+	return ""
 }
